@@ -979,6 +979,10 @@ def run(ctx: Context, rep) -> None:
     rustrules.check_cursor(ctx, rep, "C02.rust-cursor")
     from sa.rules import shared
     shared.check_no_memo(ctx, rep, "C02.memo")
+    from sa.rules import shared as _shl
+    _shl.check_log_args_pure(ctx, rep, "C02.log")
+    from sa.rules import shared as _sha
+    _sha.check_assert_pure(ctx, rep, "C02.assert")
     from sa.rules import shared as _shared
     _shared.check_fresh_pass(ctx, rep, "C02.fresh-pass")
     _shared.check_interleave_nonempty(ctx, rep, "C02.interleave")
